@@ -16,7 +16,15 @@ use std::time::Duration;
 pub enum HOp {
     /// entry: 0 = root project, 1 = sub project; route selects the spelling / the way the
     /// observed targets are reached; clean: index of a target to pass to --clean (or none).
-    Invoke { entry: u8, route: u8, clean: Option<u8> },
+    Invoke {
+        entry: u8,
+        route: u8,
+        clean: Option<u8>,
+        /// How the project directory is given: 0 absolute; 1 relative to the sandbox root;
+        /// 2 "." from inside the project; 3 relative from a sibling directory.
+        #[serde(default)]
+        how: u8,
+    },
     Edit { input: u8, kind: u8 },
     ToggleFail,
 }
@@ -29,7 +37,7 @@ pub struct C18Case {
 
 pub fn c18_case() -> impl Strategy<Value = C18Case> {
     let op = prop_oneof![
-        5 => (0u8..2, 0u8..8, prop::option::weighted(0.25, 0u8..5)).prop_map(|(entry, route, clean)| HOp::Invoke { entry, route, clean }),
+        5 => (0u8..2, 0u8..8, prop::option::weighted(0.25, 0u8..5), 0u8..4).prop_map(|(entry, route, clean, how)| HOp::Invoke { entry, route, clean, how }),
         3 => (0u8..4, 0u8..3).prop_map(|(input, kind)| HOp::Edit { input, kind }),
         1 => Just(HOp::ToggleFail),
     ];
@@ -212,7 +220,7 @@ pub fn eval_c18(case: &C18Case) -> CaseResult {
                     }
                 }
             }
-            HOp::Invoke { entry, route: r, clean } => {
+            HOp::Invoke { entry, route: r, clean, how } => {
                 let (dir, mut args, requested, label) = route(&l, *entry, *r);
                 let mut cleaned: BTreeSet<usize> = BTreeSet::new();
                 let mut all_roots = requested.clone();
@@ -260,7 +268,16 @@ pub fn eval_c18(case: &C18Case) -> CaseResult {
                 // in dependency order (b before c / d): if b is predicted to run and its input
                 // content changed, c's snapshot will differ after b ran. Evaluate lazily below.
                 sb.clear_trace();
-                let out = run_zinoma(&sb, &sb.path(&dir), &args, &[], Duration::from_secs(60), false);
+                let (cwd, parg): (Option<PathBuf>, PathBuf) = match how % 4 {
+                    0 => (None, sb.path(&dir)),
+                    1 => (Some(sb.root.clone()), PathBuf::from(&dir)),
+                    2 => (Some(sb.path(&dir)), PathBuf::from(".")),
+                    _ => (
+                        Some(sb.path("proj/asrc")),
+                        PathBuf::from(if dir == "proj" { "..".to_string() } else { "../sub".to_string() }),
+                    ),
+                };
+                let out = spawn_zinoma_in(&sb, cwd.as_deref(), &parg, &args, &[]).wait(Duration::from_secs(60), false);
                 let trace = sb.trace();
                 if out.timed_out {
                     res.inconclusive = Some("invocation still busy at budget".into());
@@ -274,7 +291,7 @@ pub fn eval_c18(case: &C18Case) -> CaseResult {
                 };
                 history.push(format!(
                     "zinoma -p {} {}  [{}] => exit {:?}, ran {:?}",
-                    dir,
+                    format!("{} (cwd {})", parg.display(), cwd.as_ref().map(|c| c.strip_prefix(&sb.root).unwrap_or(c).display().to_string()).unwrap_or_else(|| "-".into())),
                     args.join(" "),
                     label,
                     out.code(),
